@@ -32,20 +32,75 @@ type Op struct {
 	Size int
 }
 
-// Bucket is the shared durable state.
+// Bucket is the shared durable state. Objects live in a preallocated slice that is
+// scanned linearly by norace functions: no maps (the runtime instruments map accesses
+// for the race detector even inside norace code) and no visible lock, because real S3
+// does not synchronise its clients' memory.
 type Bucket struct {
 	mu   sync.Mutex
-	Segs map[string][]byte
-	Idx  map[string][]byte
+	objs []*object
 	Log  []Op
 }
 
-// lock/unlock hide the fake's own mutex from the race detector: real S3 does not
-// synchronise its clients' memory.
-func (b *Bucket) lock()   { sched.RaceOff(); b.mu.Lock() }
+type object struct {
+	key   string
+	index bool
+	data  []byte
+	live  bool
+}
+
+// lock/unlock hide the fake's own mutex from the race detector.
+//
+//go:norace
+func (b *Bucket) lock() { sched.RaceOff(); b.mu.Lock() }
+
+//go:norace
 func (b *Bucket) unlock() { b.mu.Unlock(); sched.RaceOn() }
 
-func NewBucket() *Bucket { return &Bucket{Segs: map[string][]byte{}, Idx: map[string][]byte{}} }
+func NewBucket() *Bucket {
+	return &Bucket{objs: make([]*object, 0, 512), Log: make([]Op, 0, 4096)}
+}
+
+//go:norace
+func (b *Bucket) find(key string, index bool) *object {
+	for _, o := range b.objs {
+		if o.live && o.index == index && o.key == key {
+			return o
+		}
+	}
+	return nil
+}
+
+//go:norace
+func (b *Bucket) put(key string, index bool, data []byte) {
+	cp := append([]byte(nil), data...)
+	b.lock()
+	if o := b.find(key, index); o != nil {
+		o.data = cp
+	} else {
+		b.objs = append(b.objs, &object{key: key, index: index, data: cp, live: true})
+	}
+	b.unlock()
+}
+
+//go:norace
+func (b *Bucket) get(key string, index bool) ([]byte, bool) {
+	b.lock()
+	defer b.unlock()
+	if o := b.find(key, index); o != nil {
+		return o.data, true
+	}
+	return nil, false
+}
+
+//go:norace
+func (b *Bucket) del(key string, index bool) {
+	b.lock()
+	if o := b.find(key, index); o != nil {
+		o.live = false
+	}
+	b.unlock()
+}
 
 // Client is one broker incarnation's view of the bucket.
 type Client struct {
@@ -64,6 +119,8 @@ func New(b *Bucket, who string) *Client {
 }
 
 // Crashed reports whether this incarnation has crashed.
+//
+//go:norace
 func (c *Client) Crashed() bool {
 	sched.RaceOff()
 	c.cmu.Lock()
@@ -74,6 +131,8 @@ func (c *Client) Crashed() bool {
 }
 
 // Crash marks this incarnation dead: every later operation fails without effect.
+//
+//go:norace
 func (c *Client) Crash() {
 	sched.RaceOff()
 	c.cmu.Lock()
@@ -104,6 +163,7 @@ func (c *Client) pre(op, key string) error {
 	return nil
 }
 
+//go:norace
 func (c *Client) log(op, key string, err error, size int) {
 	e := ""
 	if err != nil {
@@ -121,9 +181,7 @@ func (c *Client) UploadSegment(ctx context.Context, key string, body []byte) err
 	if err := ctx.Err(); err != nil {
 		return err
 	}
-	c.B.lock()
-	c.B.Segs[key] = append([]byte(nil), body...)
-	c.B.unlock()
+	c.B.put(key, false, body)
 	c.log("UploadSegment", key, nil, len(body))
 	return nil
 }
@@ -135,9 +193,7 @@ func (c *Client) UploadIndex(ctx context.Context, key string, body []byte) error
 	if err := ctx.Err(); err != nil {
 		return err
 	}
-	c.B.lock()
-	c.B.Idx[key] = append([]byte(nil), body...)
-	c.B.unlock()
+	c.B.put(key, true, body)
 	c.log("UploadIndex", key, nil, len(body))
 	return nil
 }
@@ -146,9 +202,7 @@ func (c *Client) DeleteSegment(ctx context.Context, key string) error {
 	if err := c.pre("DeleteSegment", key); err != nil {
 		return err
 	}
-	c.B.lock()
-	delete(c.B.Segs, key)
-	c.B.unlock()
+	c.B.del(key, false)
 	c.log("DeleteSegment", key, nil, 0)
 	return nil
 }
@@ -157,9 +211,7 @@ func (c *Client) DeleteIndex(ctx context.Context, key string) error {
 	if err := c.pre("DeleteIndex", key); err != nil {
 		return err
 	}
-	c.B.lock()
-	delete(c.B.Idx, key)
-	c.B.unlock()
+	c.B.del(key, true)
 	c.log("DeleteIndex", key, nil, 0)
 	return nil
 }
@@ -168,9 +220,7 @@ func (c *Client) DownloadSegment(ctx context.Context, key string, rng *storage.B
 	if err := c.pre("DownloadSegment", key); err != nil {
 		return nil, err
 	}
-	c.B.lock()
-	data, ok := c.B.Segs[key]
-	c.B.unlock()
+	data, ok := c.B.get(key, false)
 	if !ok {
 		c.log("DownloadSegment", key, storage.ErrNotFound, 0)
 		return nil, fmt.Errorf("%w: segment %s", storage.ErrNotFound, key)
@@ -200,9 +250,7 @@ func (c *Client) DownloadIndex(ctx context.Context, key string) ([]byte, error) 
 	if err := c.pre("DownloadIndex", key); err != nil {
 		return nil, err
 	}
-	c.B.lock()
-	data, ok := c.B.Idx[key]
-	c.B.unlock()
+	data, ok := c.B.get(key, true)
 	if !ok {
 		c.log("DownloadIndex", key, storage.ErrNotFound, 0)
 		return nil, fmt.Errorf("%w: index %s", storage.ErrNotFound, key)
@@ -215,56 +263,66 @@ func (c *Client) ListSegments(ctx context.Context, prefix string) ([]storage.S3O
 	if err := c.pre("ListSegments", prefix); err != nil {
 		return nil, err
 	}
-	c.B.lock()
-	defer c.B.unlock()
-	var out []storage.S3Object
-	for k, v := range c.B.Segs {
-		if strings.HasPrefix(k, prefix) {
-			out = append(out, storage.S3Object{Key: k, Size: int64(len(v))})
-		}
-	}
-	for k, v := range c.B.Idx {
-		if strings.HasPrefix(k, prefix) {
-			out = append(out, storage.S3Object{Key: k, Size: int64(len(v))})
-		}
-	}
-	sort.Slice(out, func(i, j int) bool { return out[i].Key < out[j].Key })
+	out := c.B.list(prefix)
 	return out, nil
 }
 
 func (c *Client) EnsureBucket(ctx context.Context) error { return nil }
 
+//go:norace
+func (b *Bucket) list(prefix string) []storage.S3Object {
+	b.lock()
+	defer b.unlock()
+	var out []storage.S3Object
+	for _, o := range b.objs {
+		if o.live && strings.HasPrefix(o.key, prefix) {
+			out = append(out, storage.S3Object{Key: o.key, Size: int64(len(o.data))})
+		}
+	}
+	sort.Slice(out, func(i, j int) bool { return out[i].Key < out[j].Key })
+	return out
+}
+
 // Snapshot returns copies of both object maps.
+//
+//go:norace
 func (b *Bucket) Snapshot() (segs, idx map[string][]byte) {
 	b.lock()
 	defer b.unlock()
-	segs = make(map[string][]byte, len(b.Segs))
-	idx = make(map[string][]byte, len(b.Idx))
-	for k, v := range b.Segs {
-		segs[k] = append([]byte(nil), v...)
-	}
-	for k, v := range b.Idx {
-		idx[k] = append([]byte(nil), v...)
+	segs = map[string][]byte{}
+	idx = map[string][]byte{}
+	for _, o := range b.objs {
+		if !o.live {
+			continue
+		}
+		if o.index {
+			idx[o.key] = append([]byte(nil), o.data...)
+		} else {
+			segs[o.key] = append([]byte(nil), o.data...)
+		}
 	}
 	return
 }
 
 // Keys returns all object keys, sorted.
+//
+//go:norace
 func (b *Bucket) Keys() []string {
 	b.lock()
 	defer b.unlock()
 	var out []string
-	for k := range b.Segs {
-		out = append(out, k)
-	}
-	for k := range b.Idx {
-		out = append(out, k)
+	for _, o := range b.objs {
+		if o.live {
+			out = append(out, o.key)
+		}
 	}
 	sort.Strings(out)
 	return out
 }
 
 // Ops returns a copy of the operation log.
+//
+//go:norace
 func (b *Bucket) Ops() []Op {
 	b.lock()
 	defer b.unlock()
